@@ -494,6 +494,8 @@ def _obligations(tier):
         sg = small if name in ('pickndrop', 'overlap') and q else sigma
         shp = shapes(2, 2) + ([(1, 3), (3, 1)] if name in ('bump_into_wall', 'actuate_door') else []) if q else shapes(3, 3)
         for (H, W) in shp:
+            if name == 'pickndrop' and H * W >= 6:
+                continue  # 42 objects in the cells read x held item: beyond the thorough limit (measured); 2x2 and the 1x3/3x1 strips remain
             obs.append(Obligation(f'{name}-real-dynamics-{H}x{W}', mk_local(name, H, W, sg, False, dyn),
                                   dict(component=name, next_state='real dynamics ' + dyn, H=H, W=W, alphabet=len(sg))))
         arb = [(1, 2), (2, 2)] if q else [(1, 2), (2, 2), (2, 3)]
@@ -503,7 +505,7 @@ def _obligations(tier):
     for kind in ['manhattan', 'euclidean', 'proportional-manhattan', 'proportional-euclidean']:
         for (H, W) in ([(2, 2), (2, 3), (3, 3)] if q else [(2, 2), (2, 3), (3, 3), (4, 4)]):
             obs.append(Obligation(f'getting-closer-{kind}-{H}x{W}', mk_distance(kind, H, W, F1), dict(kind=kind, H=H, W=W, background='Floor')))
-    for (H, W) in ([(2, 2), (2, 3), (3, 2)] if q else [(2, 2), (2, 3), (3, 2), (3, 3)]):
+    for (H, W) in [(2, 2), (2, 3), (3, 2)]:  # (3x3 over every Floor/Wall layout exceeds the thorough limit; long paths are covered by the corridor obligations)
         obs.append(Obligation(f'getting-closer-shortest_path-{H}x{W}', mk_distance('shortest_path', H, W, FW), dict(H=H, W=W, background='every Floor/Wall layout')))
     # triples in which the target or the layout differs between state and next state
     for kind in ['manhattan', 'euclidean']:
